@@ -32,7 +32,7 @@ func TestSweep(t *testing.T) {
 					F, span = 8+101*kitMax(W, 1), 101*kitMax(W, 1)
 				}
 				C := []int{1, 2, 3, 9, 2, 16, 3}[(ti+rwi)%7] // also more channels than 8
-				c := &Case{T: tn, C: C, F: F, RO: 8, Procs: procs, Repeat: rep, Partial: ((ti % 3) * (procs % 2)) % C}
+				c := &Case{T: tn, C: C, F: F, RO: 8, Procs: procs, Repeat: rep, Partial: ((ti % 3) * (procs % 2)) % C, Frac: (rwi+procs)%2 == 0}
 				c.Bounds = []int{8}
 				for w := 0; w < W; w++ {
 					c.Bounds = append(c.Bounds, 8+(w+1)*span/W)
@@ -72,7 +72,7 @@ func TestSweep(t *testing.T) {
 					}
 					c.Writers = append(c.Writers, s)
 				}
-				c.Readers = [][]int{{0, 1, 3, 5, 9, 10}, {5, 4, 1, 6, 7, 8}}
+				c.Readers = [][]int{{0, 1, 3, 5, 9, 10, 12}, {5, 4, 1, 6, 7, 8, 13}}
 				c.Yield = []int{0x55, 0xaa, 0x33, 0xcc}
 				Oracle.One(t, env, rec, "sweep", c)
 			}
